@@ -247,6 +247,48 @@ pub fn run(args: &Args) -> Report {
             rep.sample(json!({"case": scen, "reloader_threads_attributed": tids.len(), "all_exited_within_3s": gone}));
         }
     }
+    // ---- filesystem caches: the OS watcher of a dropped cache is torn down by
+    // the next notification it cannot deliver (it has no other way to notice)
+    if args.shard == 0 {
+        rep.eval();
+        let notify_threads = || procfs::tasks().into_iter().filter(|t| t.comm.starts_with("notify-rs")).count();
+        let base = notify_threads();
+        let dir = crate::util::scratch_dir("c15w");
+        std::fs::write(dir.join("x.a"), b"v0").unwrap();
+        let k = 6;
+        for i in 0..k {
+            let cache = AssetCache::with_source(FileSystem::new(&dir).expect("fs source"));
+            let _ = cache.load::<Leaf<1, 0, true>>("x");
+            std::fs::write(dir.join("x.a"), format!("v{i}")).unwrap();
+            cache.hot_reload();
+            drop(cache);
+        }
+        let with_dropped = notify_threads();
+        // only modifications of an existing file from now on
+        let mut left = with_dropped;
+        for round in 0..40 {
+            std::fs::write(dir.join("x.a"), format!("after-drop-{round}")).unwrap();
+            std::thread::sleep(Duration::from_millis(50));
+            left = notify_threads();
+            if left <= base {
+                break;
+            }
+        }
+        rep.extra.insert("notify_threads_base_afterdrop_afteredits".into(), json!([base, with_dropped, left]));
+        if left > base {
+            rep.violation(
+                "watcher-not-torn-down",
+                "C15/os-watcher-threads-accumulate-after-drop",
+                json!({"caches_created_and_dropped": k, "notify_threads_before": base, "right_after_the_drops": with_dropped,
+                       "after_40_modifications_of_an_existing_file": left}),
+                json!({"kind": "filesystem watcher teardown"}),
+            );
+        } else {
+            rep.count("fs_watcher_teardown_observed", 1);
+            rep.nontrivial(mix(0xf5, with_dropped as u64));
+        }
+        let _ = std::fs::remove_dir_all(dir);
+    }
     // ---- repeated create/drop does not accumulate threads or load
     let reps = if args.thorough() { 50 } else { 15 };
     let cpu0: u64 = procfs::tasks().iter().map(|t| t.ticks).sum();
